@@ -212,12 +212,15 @@ func TestC15(t *testing.T) {
 	// ---- Model A: schedules
 	two := srcSpec{content: []byte{8, 1, 8, 2}, chunks: [][]byte{{8, 1}, {8, 2}}}
 	failing := srcSpec{content: []byte{8, 1, 8, 2}, chunks: [][]byte{{8, 1}}, term: 14}
-	nx := exhaustiveMux(e, 2, run.Scale(6, 7), two, false)
-	nx += exhaustiveMux(e, 2, run.Scale(5, 6), failing, true)
-	nx += exhaustiveMux(e, 3, run.Scale(4, 5), two, true)
+	nx := exhaustiveMux(e, 2, run.Scale(8, 10), two, false)
+	nx += exhaustiveMux(e, 2, run.Scale(7, 9), failing, true)
+	nx += exhaustiveMux(e, 3, run.Scale(6, 7), two, true)
+	if run.Thorough() {
+		nx += exhaustiveMux(e, 4, 5, failing, false)
+	}
 	run.Extra("exhaustive_schedules", nx)
 	run.SetExhaustive(true)
-	nm := run.Scale(1500, 30000)
+	nm := run.Scale(4000, 40000)
 	for i := 0; i < nm && !e.stop(); i++ {
 		e.handle(fmt.Sprintf("seed%d/mux%d", run.Seed, i), genMux(hx.NewRand(run.Seed, "C15/mux", i)))
 	}
